@@ -102,6 +102,8 @@ def run(ctx: Ctx) -> dict:
             if i % 5 == 4:          # formatted input: white space inside (possibly short) components
                 acct = acct[:1] + " " + acct[1:]
                 bank = bank[:1] + " " + bank[1:] if i % 10 == 9 else bank
+            if not wr and i % 8 == 3:
+                branch = rng.choice(["1", "07", "0418"])      # no branch field: must be refused, not half-used
             ops.append({"op": "iban.generate", "cc": cps(cc), "bank": cps(bank), "branch": cps(branch),
                         "acct": cps(acct)})
         for seed in range(per // 2):
